@@ -14,6 +14,7 @@ import RSVerif.Proofs.SimdBlockSpec
 import RSVerif.Proofs.FlatSpec
 import RSVerif.Proofs.FlatEngineSpec
 import RSVerif.Proofs.SrcEngineSpec
+import RSVerif.Proofs.SrcKernelSpec
 
 namespace RS
 open ShardAlg
@@ -171,5 +172,76 @@ theorem source_engine_loops_are_model {V : Type} [ShardAlg V] [LawfulShardAlg V]
   ⟨⟨ssse3_fft_eq, avx2_fft_eq, ssse3_ifft_eq, avx2_ifft_eq⟩,
    src_naive_fft_model a pos n trunc delta ht hn hb h, src_naive_ifft_model a pos n trunc delta ht hn hb h,
    src_two_fft_model a pos n trunc delta ht hn hb h, src_two_ifft_model a pos n trunc delta ht hn hb h⟩
+
+open RS.SrcK RS.RustK in
+/-- the per-chunk KERNELS AS TRANSLATED FROM TODAY'S SOURCE (`Gen/SrcKernel.lean`, regenerated by
+    `/verif/translate/rs2lean_kernel.py` on every run: `mul_128` / `mul_256` / `muladd_*` / `fftb_*` / `ifftb_*` /
+    `mul_*` / `fft_butterfly_partial` / `ifft_butterfly_partial` of Ssse3, Avx2 (with `LutAvx2::from`) and Neon —
+    intrinsic by intrinsic, loads and stores through `x_ptr.add(k)` — and `mul` / `mul_add` / the partial
+    butterflies of NoSimd with `utils::xor`): on ANY two lists of 64-byte blocks (any lengths) and for ANY table
+    contents the four engine families compute the same bytes — the pair kernel of NoSimd applied to the common
+    prefix, the rest untouched — and with the tables of `g^m` that is the field butterfly in every symbol. -/
+theorem source_kernels_agree (mulf : Sym → Sym) (x y : List Block) :
+    (Ssse3_mul (lutLo mulf) (lutHi mulf) x = NoSimd_mul (lut16 mulf) x ∧
+     Avx2_mul (lutLo mulf) (lutHi mulf) x = NoSimd_mul (lut16 mulf) x ∧
+     Neon_mul (lutLo mulf) (lutHi mulf) x = NoSimd_mul (lut16 mulf) x ∧
+     NoSimd_mul (lut16 mulf) x = x.map (nosimdMulBlock mulf)) ∧
+    (Ssse3_fft_butterfly_partial (lutLo mulf) (lutHi mulf) x y = NoSimd_fft_butterfly_partial (lut16 mulf) x y ∧
+     Avx2_fft_butterfly_partial (lutLo mulf) (lutHi mulf) x y = NoSimd_fft_butterfly_partial (lut16 mulf) x y ∧
+     Neon_fft_butterfly_partial (lutLo mulf) (lutHi mulf) x y = NoSimd_fft_butterfly_partial (lut16 mulf) x y ∧
+     NoSimd_fft_butterfly_partial (lut16 mulf) x y = zipUpd2 (nosimdFftb mulf) x y) ∧
+    (Ssse3_ifft_butterfly_partial (lutLo mulf) (lutHi mulf) x y = NoSimd_ifft_butterfly_partial (lut16 mulf) x y ∧
+     Avx2_ifft_butterfly_partial (lutLo mulf) (lutHi mulf) x y = NoSimd_ifft_butterfly_partial (lut16 mulf) x y ∧
+     Neon_ifft_butterfly_partial (lutLo mulf) (lutHi mulf) x y = NoSimd_ifft_butterfly_partial (lut16 mulf) x y ∧
+     NoSimd_ifft_butterfly_partial (lut16 mulf) x y = zipUpd2 (nosimdIfftb mulf) x y) ∧
+    Utils_xor x y = zipUpd1 blockXor x y := by
+  have hk : ∀ b, ssse3MulBlock mulf b = nosimdMulBlock mulf b ∧ avx2MulBlock mulf b = nosimdMulBlock mulf b ∧
+      neonMulBlock mulf b = nosimdMulBlock mulf b := fun b => kernels_agree_block mulf b
+  have hf : ssse3Fftb mulf = nosimdFftb mulf ∧ avx2Fftb mulf = nosimdFftb mulf ∧ neonFftb mulf = nosimdFftb mulf :=
+    ⟨funext fun a => funext fun b => (fftb_agree_block mulf a b).1,
+     funext fun a => funext fun b => (fftb_agree_block mulf a b).2.1,
+     funext fun a => funext fun b => (fftb_agree_block mulf a b).2.2⟩
+  have hi : ssse3Ifftb mulf = nosimdIfftb mulf ∧ avx2Ifftb mulf = nosimdIfftb mulf ∧ neonIfftb mulf = nosimdIfftb mulf :=
+    ⟨funext fun a => funext fun b => (ifftb_agree_block mulf a b).1,
+     funext fun a => funext fun b => (ifftb_agree_block mulf a b).2.1,
+     funext fun a => funext fun b => (ifftb_agree_block mulf a b).2.2⟩
+  refine ⟨⟨?_, ?_, ?_, nosimd_mul mulf x⟩, ⟨?_, ?_, ?_, nosimd_fft_partial mulf x y⟩,
+    ⟨?_, ?_, ?_, nosimd_ifft_partial mulf x y⟩, utils_xor x y⟩
+  · rw [ssse3_mul, nosimd_mul]; exact List.map_congr_left fun b _ => (hk b).1
+  · rw [avx2_mul, nosimd_mul]; exact List.map_congr_left fun b _ => (hk b).2.1
+  · rw [neon_mul, nosimd_mul]; exact List.map_congr_left fun b _ => (hk b).2.2
+  · rw [ssse3_fft_partial, nosimd_fft_partial, hf.1]
+  · rw [avx2_fft_partial, nosimd_fft_partial, hf.2.1]
+  · rw [neon_fft_partial, nosimd_fft_partial, hf.2.2]
+  · rw [ssse3_ifft_partial, nosimd_ifft_partial, hi.1]
+  · rw [avx2_ifft_partial, nosimd_ifft_partial, hi.2.1]
+  · rw [neon_ifft_partial, nosimd_ifft_partial, hi.2.2]
+
+open RS.SrcK in
+/-- … and with the tables of the multiplier `g^m` the translated block kernels of every family are the field
+    butterflies `x' = x ⊕ g^m ⊗ y, y' = y ⊕ x'` (fft) and `y' = y ⊕ x, x' = x ⊕ g^m ⊗ y'` (ifft) on each of the
+    32 symbols of a block -/
+theorem source_kernels_are_field_butterflies (m : Nat) (x y : Block) (i : Fin 32) :
+    let f := fun y => gmul (gexp m) y
+    ∀ fft ∈ [Ssse3_fftb_128 (lutLo f) (lutHi f) x y, Avx2_fftb_256 x y (Avx2_from (lutLo f) (lutHi f)),
+             Neon_fftb_128 (lutLo f) (lutHi f) x y],
+    ∀ ifft ∈ [Ssse3_ifftb_128 (lutLo f) (lutHi f) x y, Avx2_ifftb_256 x y (Avx2_from (lutLo f) (lutHi f)),
+              Neon_ifftb_128 (lutLo f) (lutHi f) x y],
+    (blockSym fft.1 i = blockSym x i ^^^ gmul (gexp m) (blockSym y i) ∧
+     blockSym fft.2 i = blockSym y i ^^^ (blockSym x i ^^^ gmul (gexp m) (blockSym y i))) ∧
+    (blockSym ifft.1 i = blockSym x i ^^^ gmul (gexp m) (blockSym y i ^^^ blockSym x i) ∧
+     blockSym ifft.2 i = blockSym y i ^^^ blockSym x i) := by
+  intro f fft hfft ifft hifft
+  refine butterflies_gmul m x y i fft ifft ?_ ?_
+  · simp only [List.mem_cons, List.mem_nil_iff, or_false] at hfft
+    rcases hfft with h | h | h
+    · exact Or.inl (h.trans (ssse3_fftb f x y))
+    · exact Or.inr (Or.inl (h.trans (avx2_fftb f x y)))
+    · exact Or.inr (Or.inr (Or.inl (h.trans (neon_fftb f x y))))
+  · simp only [List.mem_cons, List.mem_nil_iff, or_false] at hifft
+    rcases hifft with h | h | h
+    · exact Or.inl (h.trans (ssse3_ifftb f x y))
+    · exact Or.inr (Or.inl (h.trans (avx2_ifftb f x y)))
+    · exact Or.inr (Or.inr (Or.inl (h.trans (neon_ifftb f x y))))
 
 end RS
